@@ -110,7 +110,7 @@ def build_harness(name, kind, libdir, extra_wraps=(), lib_objs=None, defs=()):
     _run([CC] + LIB_FLAGS + list(defs) + ["-I", ENGINE, "-I", HARNESS, "-I", os.path.join(repo, "include"), "-c", src, "-o", obj])
     eng = [os.path.join(libdir, s[:-2] + ".o") for s in ENGINE_SRCS]
     if kind == "raw":
-        objs = [os.path.join(libdir, o) for o in (lib_objs or ["hazard_pointer.o", "work_stealing_deque.o", "work_queue.o", "fiber_spinlock.o"])]
+        objs = [os.path.join(libdir, o) for o in (lib_objs or ["hazard_pointer.o", "work_stealing_deque.o", "work_queue.o"])]
         wraps = list(extra_wraps)
         link = ["gcc", "-no-pie", "-o", exe + ".tmp", obj] + objs + eng
     else:
